@@ -33,6 +33,7 @@ func runC21(c *Ctx) {
 	r.Rule("C21.R2", "close() tabulated over (already closed, already graceful, graceful requested): isCloseDone is closed exactly by the first closer, isGracefulCloseDone exactly by the first graceful closer, later callers only wait (gracefulDone / closeDone) and never close; signaling state Closed and the final connection-state update happen on the first closer only", 8)
 	r.Rule("C21.R3", "the closed flag swap and the graceful flag read+write happen in one critical section of pc.mu; every channel wait in close() is outside pc.mu", 3)
 	r.Rule("C21.R5", "no connection goroutine outlives GracefulClose through the operations queue: the worker is only re-spawned while the queue is not closed, and nothing is accepted into a closed queue (the worker-lifecycle rules C05.R2 and C05.R4, re-evaluated here)", 8)
+	r.Rule("C21.R6", "DataChannel.close(graceful): every return is preceded by a wait on the read loop's completion channel (a receive, or a defer of one) unless a branch established `!graceful` or `channel == nil`: GracefulClose does not return while the data-channel read loop goroutine is running", 1)
 	r.Rule("C21.R4", "idpLoginURL is never assigned (so the identity-provider early returns cannot pre-empt the closed check)", 0)
 	r.NotCovered = append(r.NotCovered, "liveness: that every Close/GracefulClose call returns", "goroutine census after GracefulClose", "a non-closed connection state reported by an updateConnectionState call that loaded isClosed before close() (C22 covers the table itself)")
 	r.Trusted = append(r.Trusted, "absint soundness on the supported fragment", "sync/atomic Bool.Swap is atomic")
@@ -122,6 +123,7 @@ func runC21(c *Ctx) {
 
 	c21Close(c)
 	c05ForC21(c, "C21.R5")
+	c21R6(c) // c21b.go
 }
 
 func c21Close(c *Ctx) {
